@@ -305,6 +305,28 @@ def final_reduction_select(chk):
     chk.floor('final reductions with conditional copy-back', n, 4)
 
 
+def formula_tables_agree(chk):
+    """The generic prime-curve implementations interpret small programs (code_double, code_add, code_affine, code_check) that encode the
+    Jacobian point formulas; ec_prime_i15 and ec_prime_i31 carry their own copies.  They are word-size variants of one algorithm: the
+    tables must be identical, element for element (a changed operand or opcode in one copy makes that implementation compute another
+    function than its sibling)."""
+    R = 'ec-prime-formula-tables-agree'
+    a, b = build.load_unit('src/ec/ec_prime_i15.c'), build.load_unit('src/ec/ec_prime_i31.c')
+    ga, gb = set(g['name'] for g in a['globals']), set(g['name'] for g in b['globals'])
+    names = sorted(n for n in ga & gb if n.startswith('code_'))
+    if len(names) < 4:
+        raise AnalysisBroken('formula tables not found in both ec_prime files (%s)' % names)
+    for n in names:
+        x, y = tab.ints_of_global(a, n), tab.ints_of_global(b, n)
+        inst = 'ec_prime_i15 / ec_prime_i31: %s identical (%d instructions)' % (n, len(x or []))
+        if x == y and x:
+            chk.ok(R, inst, 'src/ec/ec_prime_i15.c')
+        else:
+            k = next((j for j in range(min(len(x), len(y))) if x[j] != y[j]), min(len(x), len(y)))
+            chk.violation(R, inst, 'src/ec/ec_prime_i15.c', 'instruction %d differs: %#06x (i15) vs %#06x (i31)' % (k, x[k] if k < len(x) else -1, y[k] if k < len(y) else -1),
+                          key='%s %s' % (R, n))
+
+
 def rs_nonzero(chk):
     """FIPS 186-4 6.4.2 step 1: r and s must both lie in [1, n-1].  decode_mod enforces < n; each decoded value must
     additionally be zero-tested, and a positive test must force rejection."""
@@ -452,6 +474,7 @@ def run(tier):
     zero_hash_verification(chk)
     decode_mod_covers_source(chk)
     final_reduction_select(chk)
+    formula_tables_agree(chk)
     rs_nonzero(chk)
     muladd_zero_test(chk)
     rfc6979_inputs(chk)
